@@ -94,9 +94,9 @@ CHECKS = {
          'stores it under that timestamp; soundness invariant: if every cached value is the body value of its time point, each read serves the value of the current time point '
          'and keeps the invariant (any visit order); reads at ANY sequence of indices (any order, repeats) give the body value at each index (VirtualOrder.v, with a '
          'real-evaluator instance); sample-at empties every cache; naming relative to captured scope/group; ~/# references fixed at definition; the defined '
-         'signal is listed; frame rule (VirtFrame.v): expressions of the read-only fragment over names that are not aliases/virtual signals/listing names have the same value with and '
+         'signal is listed; frame rule (VirtFrame.v): expressions of the read-only fragment incl. e@k over names that are not aliases/virtual signals/listing names have the same value with and '
          'without the virtual signals and leave the state as it was, so for such bodies the any-order theorem holds for the real evaluator at any fuel without a purity premise. '
-         'PARTIAL: for bodies outside that fragment (@, scoped references, calls) "a function of the time point" stays the premise, exercised by the differential check.' + DIFF,
+         'PARTIAL: for bodies outside that fragment (scoped references, calls) "a function of the time point" stays the premise, exercised by the differential check.' + DIFF,
     technique='Coq proof (cache soundness invariant over all read histories; per-operator frame rule for the read-only fragment) + differential correspondence + body-vs-signal oracle'),
  'C14': dict(
     text='Theorems (Coq): first/second/last/rest/length/zip/list/+ on lists/slice/range compute head, tail, length, combine, concatenation, firstn/skipn after clamping, '
